@@ -300,14 +300,35 @@ def _exp_atom(a):
     return e
 
 
+def _snap_exp(c0):
+    """A float constant that is the double nearest to log(q) for a simple rational q is read as log(q)
+    (so that exp(-np.log(1.0 / num_bins)) is exactly num_bins), in the spirit of term.read_float."""
+    x = float(c0)
+    try:
+        v = math.exp(x)
+    except OverflowError:
+        return None
+    q = tm.simplest_between(Fraction(v) * (1 - Fraction(1, 10 ** 13)), Fraction(v) * (1 + Fraction(1, 10 ** 13)))
+    if q <= 0 or q.denominator > 10 ** 4 or q.numerator > 10 ** 6:
+        return None
+    back = math.log(q.numerator) - math.log(q.denominator)
+    if abs(back - x) <= 4 * math.ulp(x if x != 0 else 1.0):
+        return q
+    return None
+
+
 def t_exp(u):
     u = tm.to_real(u) if u.sort == "I" else u
     c0, items = tm.linear_form(u)
     factors = []
     if c0 != 0:
-        e = tm.app("exp", [tm.const(c0)])
-        _enclose(e, Fraction(math.exp(float(c0))))
-        factors.append(e)
+        q = _snap_exp(c0)
+        if q is not None:
+            factors.append(tm.const(q))
+        else:
+            e = tm.app("exp", [tm.const(c0)])
+            _enclose(e, Fraction(math.exp(float(c0))))
+            factors.append(e)
     for c, a in items:
         factors.append(_rat_power(_exp_atom(a), c))
     if not factors:
